@@ -1,6 +1,6 @@
 (* C12 — CPU-time and off-CPU accounting conserve time for every switch/sample history. *)
 From SV Require Import Model.ContextSwitch Spec.ContextSwitchSpec Proofs.ContextSwitchProofs Tie.C12.
-From SV Require Import Generated.ContextSwitchGen Proofs.ContextSwitchGenProofs.
+From SV Require Import Generated.ContextSwitchGen Proofs.ContextSwitchGenProofs Proofs.SchedModeProofs.
 From Coq Require Import Lia.
 Open Scope N_scope.
 
@@ -65,7 +65,45 @@ Theorem C12_conservation_of_translation :
     groups_ok I 0 os.
 Proof. intros I evs s' os HI Hn Hr. rewrite (g_run_eq I evs HI) in Hr. exact (conservation I evs s' os HI Hn Hr). Qed.
 
+(* The converter's second off-CPU mode (a sched:sched_switch event next to the main event; Proofs/SchedModeProofs.v): a sched_switch sample is the
+   thread's switch-out, a main-event sample ends the sleep, is followed by consume_cpu_delta for the first sample of the off-CPU group if one came
+   back, and by consume_cpu_delta for the sample itself.  sched_expect I cs_init evs is the sample table (time, CPU delta, weight) that this driving
+   of the handler leaves.  For every interval I > 0 and every history with nondecreasing times (SwOut = sched_switch sample, Sample = main-event
+   sample; other kinds are not records of this mode): the CPU deltas of the table plus what is still accumulated are the time observed running; the
+   weights beyond one per main-event sample, times I, plus the remainder (< I) plus a sleep that has not ended are the time observed sleeping. *)
+Theorem C12_sched_mode_conservation :
+  forall (I : N) (evs : list ev),
+    0 < I -> nondecreasing_from 0 (timed (sched_only evs)) ->
+    exists s' : cs,
+      let obs := sched_expect I cs_init evs in
+      let l := timed (sched_only evs) in
+      bad s' = false /\
+      dsum obs + on_acc s' = running l /\
+      nmain evs <= wsum obs /\
+      (wsum obs - nmain evs) * I + off_acc s' + pending_sleep l = sleeping l /\
+      off_acc s' < I.
+Proof. exact sched_mode_conservation. Qed.
+
+(* ... and when the history ends with a main-event sample nothing is pending: the table alone carries the sums - exactly the two clauses the
+   correspondence run decides on the converter's serialized table *)
+Theorem C12_sched_mode_table :
+  forall (I : N) (evs : list ev),
+    0 < I -> nondecreasing_from 0 (timed (sched_only evs)) -> last_is_sample false evs = true ->
+    let obs := sched_expect I cs_init evs in
+    let l := timed (sched_only evs) in
+    dsum obs = running l /\ nmain evs <= wsum obs /\ wsum obs - nmain evs = sleeping l / I.
+Proof. exact sched_mode_table. Qed.
+
+Theorem C12_sched_checker_accepts_model :
+  forall (I : N) (evs : list ev),
+    0 < I -> sched_only evs = evs -> nondecreasing_from 0 (timed evs) -> last_is_sample false evs = true ->
+    verdict_e2e_sched (I, evs, sched_expect I cs_init evs, false) mod 10 = 0.
+Proof. exact sched_checker_accepts_model. Qed.
+
 Print Assumptions C12_conservation.
+Print Assumptions C12_sched_mode_conservation.
+Print Assumptions C12_sched_mode_table.
+Print Assumptions C12_sched_checker_accepts_model.
 Print Assumptions C12_translation_agrees.
 Print Assumptions C12_conservation_of_translation.
 Print Assumptions C12_group_inside_sleep.
@@ -86,3 +124,11 @@ Proof. vm_compute. reflexivity. Qed.
 
 Example ex_outputs_translation : snd (g_run 10 cs_init ex_evs) = snd (run 10 cs_init ex_evs).
 Proof. vm_compute. reflexivity. Qed.
+
+(* Non-vacuity for the sched_switch mode: a sleep of 3.5 intervals between two samples gives three off-CPU samples (one at the begin with the CPU
+   time accumulated before the sleep, a rest sample of weight 2), and the main-event samples. *)
+Example ex_sched :
+  sched_expect 1000 cs_init [Sample 10; SwOut 20; Sample 3520; Sample 3521] =
+    [(10, 0, 1); (1020, 10, 1); (3020, 0, 2); (3520, 0, 1); (3521, 1, 1)] /\
+  last_is_sample false [Sample 10; SwOut 20; Sample 3520; Sample 3521] = true.
+Proof. vm_compute. split; reflexivity. Qed.
